@@ -451,6 +451,7 @@ func runStreamScenario(seed int64, viaGrpc bool) (*streamResult, error) {
 	defer link.close()
 
 	// what the model's fetch would hand out now, given what the client still holds
+	var lastCands string
 	expect := func() (want int, anyFits bool, err error) {
 		d, err := e.dumpR(ctx)
 		if err != nil {
@@ -474,6 +475,19 @@ func runStreamScenario(seed int64, viaGrpc bool) (*streamResult, error) {
 			cands = append(cands, x)
 		}
 		m, b := maxM-len(held), maxB-heldBytes
+		// ORDER BY attempt_at LIMIT n leaves ties to the database (two deliveries nacked in one
+		// transaction share their attempt_at): order ties pessimistically, largest first, so
+		// that a send is only expected when every tie-break would produce one
+		sort.SliceStable(cands, func(i, j int) bool {
+			if cands[i].AttemptAt != cands[j].AttemptAt {
+				return cands[i].AttemptAt < cands[j].AttemptAt
+			}
+			return d.msg(cands[i].Msg).Size > d.msg(cands[j].Msg).Size
+		})
+		lastCands = ""
+		for _, x := range cands {
+			lastCands += fmt.Sprintf(" %s:%dB@%+dms(att %d)", x.ID.String()[:6], d.msg(x.Msg).Size, (x.AttemptAt-e.VNow())/1e6, x.Attempts)
+		}
 		if m <= 0 || b <= 0 {
 			return 0, false, nil
 		}
@@ -550,8 +564,8 @@ func runStreamScenario(seed int64, viaGrpc bool) (*streamResult, error) {
 		}
 		if w2, _, _ := expect(); w2 > 0 && cl.nsends() == before {
 			held, hb := cl.outstanding()
-			cl.viol = append(cl.viol, fmt.Sprintf("stall: after %s the client holds %d messages / %d bytes of %d / %d, the fetch of the model would hand out %d deliverable messages, nothing was sent for %v",
-				what, len(held), hb, maxM, maxB, w2, stallBound))
+			cl.viol = append(cl.viol, fmt.Sprintf("stall: after %s the client holds %d messages / %d bytes of %d / %d, the fetch of the model would hand out %d deliverable messages, nothing was sent for %v (eligible, in attempt order:%s)",
+				what, len(held), hb, maxM, maxB, w2, stallBound, lastCands))
 		}
 		return nil
 	}
@@ -670,6 +684,9 @@ func runHOL() (map[string]interface{}, error) {
 	var begins int64
 	var bmu sync.Mutex
 	SetDBHook(e.DSN, func(ctx context.Context, kind CallKind, q string, after bool) error {
+		if os.Getenv("VERIF_SQLLOG") != "" && !after && (kind == KExec || kind == KQuery) && strings.Contains(q, "deliveries") {
+			fmt.Fprintln(os.Stderr, "SQL:", kind, q)
+		}
 		if kind == KBegin && !after {
 			bmu.Lock()
 			begins++
@@ -705,6 +722,164 @@ func runHOL() (map[string]interface{}, error) {
 	}
 	cl.mu.Unlock()
 	return map[string]interface{}{"sent_sizes": sizesSent, "transactions_per_second_while_blocked": rate, "events": cl.events}, nil
+}
+
+// runForced: two transaction-boundary interleavings that timing alone almost never
+// produces, forced through the SQL driver wrapper.
+//
+//	nack-refetch: the reader's zero-deadline nack transaction has committed (the message is
+//	  deliverable again) but the reader has not yet updated its bookkeeping when the sender
+//	  is woken, fetches the message again and sends it.
+//	refresh-race: the refresher has taken its snapshot of the pending ids and is held at its
+//	  query while the sender fetches and sends a new message.
+//
+// In both, further publishes must not take the client past its limit of 3 messages.
+func runForced(kind string) (*streamResult, error) {
+	ctx := context.Background()
+	e, err := NewEnv(true)
+	if err != nil {
+		return nil, err
+	}
+	defer e.Close()
+	res := &streamResult{Scenario: "forced:" + kind, MaxM: 3, MaxB: 100000}
+	topic, subName := "projects/p/topics/r", "projects/p/subscriptions/r"
+	pre, _ := e.dumpR(ctx)
+	e.Exec(ctx, &Op{Kind: "CreateTopic", Name: topic}, pre)
+	mn, mx := 60*time.Second, 120*time.Second
+	e.Exec(ctx, &Op{Kind: "CreateSub", Sub: &SubReq{Name: subName, Topic: topic, Retry: &[2]*time.Duration{&mn, &mx}}}, pre)
+	publish := func(n int) error {
+		for i := 0; i < n; i++ {
+			d, _ := e.dumpR(ctx)
+			if o, err := e.Exec(ctx, &Op{Kind: "Publish", Name: topic, Msgs: []PubMsg{{Data: sizedPayload(10)}}}, d); err != nil || o.Resp.Kind != "ids" {
+				return fmt.Errorf("publish: %v", err)
+			}
+		}
+		return nil
+	}
+	if err := publish(2); err != nil {
+		return nil, err
+	}
+	d0, _ := e.dumpR(ctx)
+	sub := d0.subByName(subName)
+	cl := &streamClient{out: map[uuid.UUID]int{}, maxM: 3, maxB: 100000}
+	conn := &scriptConn{in: make(chan *actions.MessageStreamRequest), closed: make(chan struct{}), cl: cl}
+	sctx, cancel := context.WithCancel(ctx)
+	defer cancel()
+	ms := &actions.MessageStreamer{Client: e.Client, SubscriptionID: &sub.ID, SubscriptionName: subName, AutomaticNack: true}
+	done := make(chan error, 1)
+	go func() { done <- ms.Go(sctx, conn) }()
+	dl := &directLink{conn, cancel, done}
+	if err := dl.flow(3, 100000); err != nil {
+		return nil, err
+	}
+	waitSends := func(n int, d time.Duration) bool {
+		deadline := time.Now().Add(d)
+		for time.Now().Before(deadline) {
+			if cl.nsends() >= n {
+				return true
+			}
+			time.Sleep(5 * time.Millisecond)
+		}
+		return false
+	}
+	if !waitSends(2, 3*time.Second) {
+		return nil, fmt.Errorf("forced %s: the first two messages were not sent", kind)
+	}
+	held, _ := cl.outstanding()
+	a := held[0]
+	var hmu sync.Mutex
+	armed, sawDelay := true, false
+	blocked := make(chan struct{})
+	release := make(chan struct{})
+	var once sync.Once
+	hold := func() {
+		once.Do(func() { close(blocked) })
+		select {
+		case <-release:
+		case <-time.After(2 * time.Second):
+		}
+	}
+	SetDBHook(e.DSN, func(ctx context.Context, k CallKind, q string, after bool) error {
+		hmu.Lock()
+		isArmed := armed
+		hmu.Unlock()
+		if !isArmed {
+			return nil
+		}
+		switch kind {
+		case "nack-refetch":
+			if k == KExec && !after && strings.HasPrefix(q, "UPDATE `deliveries` SET `attempt_at` = ? WHERE") {
+				hmu.Lock()
+				sawDelay = true
+				hmu.Unlock()
+			}
+			if k == KCommit && after {
+				hmu.Lock()
+				s := sawDelay
+				if s {
+					armed = false
+				}
+				hmu.Unlock()
+				if s {
+					hold()
+				}
+			}
+		case "refresh-race":
+			if k == KQuery && !after && strings.Contains(q, "`deliveries`.`id` IN") && strings.Contains(q, "`completed_at` IS NULL") {
+				hmu.Lock()
+				armed = false
+				hmu.Unlock()
+				hold()
+			}
+		}
+		return nil
+	})
+	defer SetDBHook(e.DSN, nil)
+	switch kind {
+	case "nack-refetch":
+		cl.note("nack %s as a zero deadline; the reader is held right after its transaction commits", a.String()[:8])
+		cl.settle([]uuid.UUID{a})
+		go dl.nack([]uuid.UUID{a}, true)
+		select {
+		case <-blocked:
+		case <-time.After(3 * time.Second):
+			return nil, fmt.Errorf("forced nack-refetch: the nack transaction was not seen")
+		}
+		// any committed change on the subscription wakes the waiting fetch
+		actions.WakePublishListeners(false, sub.ID)
+		if !waitSends(3, 1500*time.Millisecond) {
+			cl.note("the nacked message was not fetched again while the reader was held (schedule not reached)")
+		}
+		close(release)
+	case "refresh-race":
+		cl.note("Acknowledge %s outside the stream; the refresher is held at its query", a.String()[:8])
+		cl.settle([]uuid.UUID{a})
+		d, _ := e.dumpR(ctx)
+		go e.Exec(ctx, &Op{Kind: "Ack", Name: subName, AckIDs: []string{a.String()}}, d)
+		select {
+		case <-blocked:
+		case <-time.After(3 * time.Second):
+			return nil, fmt.Errorf("forced refresh-race: the refresher's query was not seen")
+		}
+		if err := publish(1); err != nil {
+			return nil, err
+		}
+		if !waitSends(3, 1500*time.Millisecond) {
+			cl.note("the new message was not sent while the refresher was held (schedule not reached)")
+		}
+		close(release)
+	}
+	time.Sleep(150 * time.Millisecond)
+	if err := publish(3); err != nil {
+		return nil, err
+	}
+	time.Sleep(600 * time.Millisecond)
+	cl.mu.Lock()
+	res.Sends = len(cl.sends)
+	res.Violations = append(res.Violations, cl.viol...)
+	res.Events = cl.events
+	cl.mu.Unlock()
+	return res, nil
 }
 
 func cmdStream(args []string) error {
@@ -761,6 +936,16 @@ func cmdStream(args []string) error {
 	holRes, err := runHOL()
 	if err != nil {
 		return fmt.Errorf("head-of-line probe: %w", err)
+	}
+	for _, k := range []string{"nack-refetch", "refresh-race"} {
+		fr, err := runForced(k)
+		if err != nil {
+			return err
+		}
+		results = append(results, fr)
+		tot["scenarios_forced"]++
+		tot["sends"] += fr.Sends
+		tot["violations"] += len(fr.Violations)
 	}
 	return writeJSON(filepath.Join(*out, "stream.json"), map[string]interface{}{"totals": tot, "results": results, "head_of_line_probe": holRes})
 }
